@@ -115,6 +115,23 @@ def check_pdu(ctx, r, kind, v, sub = "pdu"):
 		ctx.violation(sub, w, what = "decoded version field differs")
 		return
 	ctx.count("roundtrips")
+	# a receiver decodes out of a buffer it then re-uses for the next datagram: what was decoded must not change with it
+	buf = bytearray(want)
+	d3 = mk(kind)
+	try:
+		d3.from_bytes(buf)
+		for i in range(len(buf)):
+			buf[i] = 0xa5
+		bad = same(v, d3.c)
+		again = bytes(d3.to_bytes())
+	except Exception as e:
+		ctx.violation(sub, w, what = "%s decoded from a bytearray that is re-used afterwards: %s: %s" % (CLASSES[kind], type(e).__name__, e))
+		return
+	ctx.count("decoded_from_reused_buffer")
+	if bad or again != want:
+		ctx.violation(sub, dict(w, differing = bad[:8]), what = "%s: decoded values change when the receive buffer is re-used (%s)" % (
+			CLASSES[kind], ", ".join(bad[:4]) or "re-encoding differs"))
+		return
 	# NOPE carries no burst
 	if v.get("nope") == 1 and ("soft-bits" in dec.c or "hard-bits" in dec.c):
 		ctx.violation(sub, w, what = "a NOPE PDU decodes with burst octets")
@@ -289,6 +306,7 @@ def run(ctx):
 		m = trxd.rand_rx(r, ver = 1, nope = False, mod = mod)
 		m["tsc_set"], m["tsc"] = s, t
 		cross_check(ctx, r, m, False)
+	ctx.require("decoded_from_reused_buffer", 500)
 	ctx.require("roundtrips", 5000)
 	ctx.require("reserved_bit_checks", 5000)
 	ctx.require("wrong_version_rejected", 1000)
